@@ -32,7 +32,7 @@ def __check_ensemble_data(obs, ens):
     # Convert data to proper dimensions
     obs = np.atleast_1d(obs).astype(np.float64)
     if obs.ndim > 1:
-        obs = obs.squeeze()
+        obs = np.atleast_1d(obs.squeeze())
     if obs.ndim > 1:
         raise ValueError("obs is not 1D")
 
